@@ -37,11 +37,15 @@ func sanitizeDestURL(dest string) string {
 }
 
 func resolveDest(dest string, pathName string, matches []string) string {
-	out := strings.ReplaceAll(dest, "$MTX_PATH", pathName)
+	out := dest
 
 	for i := len(matches) - 1; i >= 1; i-- {
 		out = strings.ReplaceAll(out, "$G"+strconv.FormatInt(int64(i), 10), matches[i])
 	}
+
+	// replace $MTX_PATH after groups, otherwise a path name that begins with a digit
+	// and follows a $G<n> placeholder changes the index of the placeholder.
+	out = strings.ReplaceAll(out, "$MTX_PATH", pathName)
 
 	return out
 }
